@@ -522,6 +522,24 @@ func c02(c *fw.Ctx) {
 		}
 		c02One(r, dmOpts{text: "abcdefghijkl", shape: 2, max: &[2]int{8, 18}}, "too-long")
 	})
+	// Latin-1 text whose bytes look like something else to a decoder that sniffs: byte order
+	// marks (EF BB BF = "\u00ef\u00bb\u00bf", FE FF, FF FE), UTF-8-looking pairs, at the start of the
+	// message, of a Base 256 run inside it, and inside a macro envelope
+	c.Run("lookalikes", func(r *fw.Rec) {
+		rng := r.Rng
+		pre := []string{"\u00ef\u00bb\u00bf", "\u00fe\u00ff", "\u00ff\u00fe", "\u00c3\u00a9", "\u00e4\u00b8\u00ad", "\u00ef\u00bb", "\u00bb\u00bf"}
+		for _, p := range pre {
+			for rep := 0; rep < 6; rep++ {
+				tail := []string{"", "Data Matrix", "\u00e9\u00e8\u00ea", "12345678", "abc \u00fc"}[rng.Intn(5)]
+				for _, t := range []string{p + tail, "AB" + p + tail, "[)>\x1e05\x1d" + p + tail + "\x1e\x04", p + p + tail, fromAlphabet(rng, "abcdef", 1+rng.Intn(8)) + p} {
+					if !c02One(r, dmOpts{text: t}, "byte-order-mark-lookalikes") {
+						return
+					}
+				}
+			}
+		}
+	})
+	c.Floor("class_byte-order-mark-lookalikes", 100)
 	// contents that are not text at all (invalid UTF-8: isolated bytes >= 0x80, truncated
 	// sequences, surrogates) or text outside ISO-8859-1, of every length class: never a symbol
 	for i := 0; i < c.Pick(40, 400); i++ {
